@@ -6,6 +6,9 @@ import (
 	"strings"
 
 	sdkmath "cosmossdk.io/math"
+	authtypes "github.com/cosmos/cosmos-sdk/x/auth/types"
+
+	cctypes "github.com/functionx/fx-core/v8/x/crosschain/types"
 )
 
 // bridgeChecks holds the model state of the BRIDGE engine's oracles.
@@ -23,6 +26,7 @@ type bridgeChecks struct {
 	executed       map[string]map[uint64]int    // chain -> nonce -> successful executions
 	lastAccepted   map[string]map[string]uint64 // chain -> oracle -> last accepted claim nonce
 	hasAccepted    map[string]map[string]bool
+	supplyPre      map[string]sdkmath.Int // chain|base -> coin supply (FX: escrow of the chain module) before the step
 
 	// C05 / C06 / C13 / C04 models live in their own files
 	pendingViol []Violation
@@ -115,6 +119,16 @@ func (c *bridgeChecks) before(r *Run, s *Step) {
 	for _, ch := range st.Chains {
 		c.pre[ch.Name] = r.W.ViewChain(ctx, ch.Name)
 	}
+	c.supplyPre = map[string]sdkmath.Int{}
+	for _, ch := range st.Chains {
+		for _, tk := range ch.Tokens {
+			if tk.Base == "FX" {
+				c.supplyPre[ch.Name+"|FX"] = r.W.App.BankKeeper.GetBalance(ctx, authtypes.NewModuleAddress(ch.Name), "FX").Amount
+			} else {
+				c.supplyPre[ch.Name+"|"+tk.Base] = r.W.App.BankKeeper.GetSupply(ctx, tk.Base).Amount
+			}
+		}
+	}
 	c.c04.before(r, s)
 	c.c13.before(r, s)
 }
@@ -164,6 +178,12 @@ func (e BridgeEngine) Check(r *Run, s *Step, o *Outcome) []Violation {
 		vs = c.checkC01(r, s, o)
 	case "C02":
 		vs = c.checkC02(r, s, o)
+		// "have each voted for that very event": votes tallied together must describe one event - judged by
+		// the differential oracle of C03 (claims sharing an attestation are executed on branches)
+		for _, v := range c.c03.check(r, c, s, o) {
+			v.Invariant = "voted-for-that-very-event"
+			vs = append(vs, v)
+		}
 	case "C03":
 		vs = c.c03.check(r, c, s, o)
 	case "C04":
@@ -412,6 +432,12 @@ func (c *bridgeChecks) checkC01(r *Run, s *Step, o *Outcome) []Violation {
 				if _, was := pre.Pending[n]; !was {
 					vs = append(vs, viol("execute-once", "executed-without-record", "%s: execute claim %d succeeded without a pending record", ch.Name, n))
 				}
+				// the effects of ONE execution bound what the transaction may have created: for every token of the
+				// executed claim the supply of its coin grows by at most the claimed amount (FX: the escrow shrinks
+				// by at most the amount) - a handler that ran twice (re-entrancy) exceeds it
+				if s.Kind == "block" && deliveredCount(o) == 1 && s.N <= 1 {
+					vs = append(vs, c.effectBound(r, ch, n, pre.Pending[n])...)
+				}
 			}
 		}
 		// a pending record may only appear for a nonce observed in this step
@@ -551,6 +577,61 @@ func (c *bridgeChecks) checkC02(r *Run, s *Step, o *Outcome) []Violation {
 				}
 			}
 			r.State(fmt.Sprintf("%s:n%d/v%d/o%d", ch.Name, min(len(post.OracleList), 9), len(seen), len(a.Votes)))
+		}
+	}
+	return vs
+}
+
+// effectBound: see the call site (C01 execute-once).
+func (c *bridgeChecks) effectBound(r *Run, ch *ChainSt, n uint64, claim cctypes.ExternalClaim) []Violation {
+	var vs []Violation
+	w := r.W
+	ctx := w.Ctx()
+	type ta struct {
+		contract string
+		amt      sdkmath.Int
+	}
+	var toks []ta
+	kind := ""
+	switch cl := claim.(type) {
+	case *cctypes.MsgSendToFxClaim:
+		kind = "send_to_fx"
+		toks = append(toks, ta{cl.TokenContract, cl.Amount})
+	case *cctypes.MsgBridgeCallClaim:
+		kind = "bridge_call"
+		for i, t := range cl.TokenContracts {
+			if i < len(cl.Amounts) {
+				toks = append(toks, ta{t, cl.Amounts[i]})
+			}
+		}
+	default:
+		return nil
+	}
+	sum := map[string]sdkmath.Int{}
+	for _, t := range toks {
+		for _, tk := range ch.Tokens {
+			if ExtAddrStr(ch.Name, tk.Contract) == t.contract {
+				if _, ok := sum[tk.Base]; !ok {
+					sum[tk.Base] = sdkmath.ZeroInt()
+				}
+				sum[tk.Base] = sum[tk.Base].Add(t.amt)
+			}
+		}
+	}
+	for _, base := range sortedKeys(sum) {
+		pre, ok := c.supplyPre[ch.Name+"|"+base]
+		if !ok {
+			continue
+		}
+		var delta sdkmath.Int
+		if base == "FX" {
+			delta = pre.Sub(w.App.BankKeeper.GetBalance(ctx, authtypes.NewModuleAddress(ch.Name), "FX").Amount)
+		} else {
+			delta = w.App.BankKeeper.GetSupply(ctx, base).Amount.Sub(pre)
+		}
+		r.Probe("execute-effect-bound-checked")
+		if delta.GT(sum[base]) {
+			vs = append(vs, viol("execute-once", "effects-exceed-one-execution/"+kind, "%s: executing pending claim %d (%s of %s %s) released %s %s", ch.Name, n, kind, sum[base], base, delta, base))
 		}
 	}
 	return vs
